@@ -4,7 +4,8 @@ import pyref, corr_parse, gen_scripts
 
 RULE = ("exhaustive token sequences (61-token vocabulary, with and without a require-everything preamble), grammar-directed valid scripts, "
         "all their single-token edits, byte mutations; each classified valid / invalid / outside-the-claim by the independent recogniser "
-        "Spec.wf (Lean, run in the driver) and compared with the parser's verdict; plus re-rendering of valid scripts with flipped letter "
+        "Spec.wf (Lean, run in the driver) and compared with the parser's verdict; a template family placing elsif / else / require / stray tests at "
+        "every nesting position after every kind of predecessor; plus re-rendering of valid scripts with flipped letter "
         "case, CR/LF/CRLF, tabs and comments; non-trivial = classified valid or invalid with ≥ 4 tokens")
 
 
@@ -72,10 +73,21 @@ def run(ctx):
     gen_valid = [(t, w) for t, m, w in zip(rec.text, rec.meta, wfs) if m.get("valid")]
     info["generated_classified_valid"] = sum(1 for _, w in gen_valid if w == "valid")
     info["generated_total"] = len(gen_valid)
+    tmpl = nesting_templates()
+    t_impl, t_ys, t_model = corr_parse.eval_both(tmpl)
+    t_wf = wf_all(tmpl)
+    diffs = rec.diffs()
+    for t, a, m, w in zip(tmpl, t_impl, t_model, t_wf):
+        cls[w] = cls.get(w, 0) + 1
+        nontriv += 1
+        if a != m:
+            diffs.append({"suite": "parse", "input_hex": t.hex(), "input": t.decode("latin-1"), "impl": a[:300], "model": m[:300]})
+        bad = judge(t, a, w)
+        if bad:
+            viol.append({"input_hex": t.hex(), "input": t.decode("latin-1"), "what": bad, "wf": w})
     var = variants(ctx, 150 if ctx.tier == "quick" else 1500)
     texts = [v for b, vs in var for v in [b] + vs]
     impl, ys, model = corr_parse.eval_both(texts)
-    diffs = rec.diffs()
     i = 0
     for b, vs in var:
         base = impl[i]
@@ -87,9 +99,26 @@ def run(ctx):
         i += 1 + len(vs)
     fresh, known = split_known("C01", viol, matcher)
     res = std_result(rec, info, fresh, known, RULE, {"wf_classes": cls, "variants": {"evaluations": len(texts)}}, diffs=diffs)
-    res["evaluations"] += len(texts)
+    res["evaluations"] += len(texts) + len(tmpl)
+    res["suites"]["nesting_templates"] = {"evaluations": len(tmpl)}
     res["distinct_nontrivial"] = nontriv
     return res
+
+
+def nesting_templates():
+    """misplaced elsif / else / require / stray tests at every nesting position after every kind of predecessor"""
+    inner = [b"else { stop; }", b"elsif true { stop; }", b"else { }", b'require "fileinto";', b"true", b"stop; else { keep; }", b"if true { } else { stop; }",
+             b"if true { } elsif true { } else { }", b"elsif true { } else { }"]
+    pre = [b"", b"if true { stop; } ", b"if true { } elsif false { } ", b"stop; ", b"if true { } else { } ", b"# c\n", b'require "fileinto"; ']
+    outer = [b"%s", b"if false { %s }", b"if true { } else { %s }", b"if true { if false { %s } }", b"if true { keep; %s }", b"if true { if true { } %s }",
+             b"if true { } elsif true { %s }", b"if true { stop; } if true { %s }"]
+    out = []
+    for a in pre:
+        for o in outer:
+            for x in inner:
+                out.append(a + (o % x))
+                out.append(a + (o % x) + b" keep;")
+    return list(dict.fromkeys(out))
 
 
 def search(ctx, broken):
@@ -102,14 +131,7 @@ def search(ctx, broken):
         toks = g.script(2)[0]
         for kind, pos, mt in gen_scripts.structural_edits(toks, r, limit=None):
             texts.append(gen_scripts.render(mt))
-    inner = [b"else { stop; }", b"elsif true { stop; }", b"else { }", b'require "fileinto";', b"true", b"stop; else { keep; }", b"if true { } else { stop; }"]
-    pre = [b"", b"if true { stop; } ", b"if true { } elsif false { } ", b"stop; ", b"if true { } else { } "]
-    outer = [b"%s", b"if false { %s }", b"if true { } else { %s }", b"if true { if false { %s } }", b"if true { keep; %s }", b"if true { if true { } %s }"]
-    for a in pre:
-        for o in outer:
-            for x in inner:
-                texts.append(a + (o % x))
-                texts.append(a + (o % x) + b" keep;")
+    texts += nesting_templates()
     for b in broken:
         d = b.get("detail")
         if isinstance(d, dict) and "input_hex" in d:
